@@ -118,6 +118,9 @@ pub fn cut_persist_messages(_s: &mut Segment, _c: Option<Confirmation>) -> Resul
 pub fn cut_add_persisted_segment(_p: &mut Partition, _start: u64) -> Result<(), IggyError> {
     panic!("cut: Partition::add_persisted_segment must not be reached in this harness");
 }
+pub fn cut_partition_append(_p: &mut Partition, _i: AppendableBatchInfo, _m: Vec<Message>, _c: Option<Confirmation>) -> Result<(), IggyError> {
+    panic!("cut: Partition::append_messages must not be reached in this harness");
+}
 /// summary of `Segment::is_full` for an OPEN segment: full iff size >= max size (an open segment is
 /// never expired). Contract discharged by harness `c14_open_segment_full_iff_size`.
 pub fn summary_is_full_open(s: &Segment) -> bool {
